@@ -51,7 +51,8 @@ structure AllocPost (E : Nat) (s s' : St) (sz al : Nat) (o : Outcome Nat) : Prop
   ok : ∀ p, o = .ok p → ArenaWF E s'.a ∧ al ∣ p ∧ s.a.M ∣ p ∧ 0 < p ∧ AllocShape E s.a s'.a p sz ∧
       ∃ refs, AllRefused refs ∧
         (s'.evs = s.evs ++ refs ∧ s'.a.chunks.length = s.a.chunks.length ∨
-         ∃ c, s'.a.chunks = c :: s.a.chunks ∧ s'.evs = s.evs ++ refs ++ [.malloc c.size c.align (some c.data)])
+         ∃ c, s'.a.chunks = c :: s.a.chunks ∧ s'.evs = s.evs ++ refs ++ [.malloc c.size c.align (some c.data)] ∧
+           0 < usable c ∧ (∀ L, s.a.limit = some L → s.a.allocatedBytes E + usable c ≤ L))
   fail : o = .err ∨ o = .panic → s'.a = s.a ∧ ∃ refs, AllRefused refs ∧ s'.evs = s.evs ++ refs
 
 theorem consChunk_wf {E a c d} (h : ArenaWF E a) (hf : FreshChunk E a.chunks a.M d (a.allocatedBytes E) c) :
@@ -167,9 +168,19 @@ theorem allocSlow_spec {E sz al} (s : St) (hE : EnvOK E) (h : ArenaWF E s.a) (hA
         intro q hq
         cases hq
         refine ⟨hwf'', eff.al_dvd, eff.m_dvd, eff.nz, Or.inr (Or.inr ⟨c, hc0', hge, by rw [← hfc.ptr_eq]; exact hle,
-          hfc.ptr_eq, hfc.disj, hfc.sdisj, ?_⟩), refs, hrf, Or.inr ⟨_, hc0', ?_⟩⟩
+          hfc.ptr_eq, hfc.disj, hfc.sdisj, ?_⟩), refs, hrf, Or.inr ⟨_, hc0', ?_, ?_, ?_⟩⟩
         · rw [hfc.ab_eq]; unfold usable; have := hd.size_eq; rw [hfc.size_eq]; omega
         · simpa using hev
+        · have hus : usable { c with ptr := p' } = d.nswf := by
+            unfold usable; show c.size - FOOTER_SIZE = _; rw [hfc.size_eq, hd.size_eq]; omega
+          rw [hus]; exact hfc.nswf_pos
+        · intro L hL
+          have hus : usable { c with ptr := p' } = d.nswf := by
+            unfold usable; show c.size - FOOTER_SIZE = _; rw [hfc.size_eq, hd.size_eq]; omega
+          rw [hus]
+          simp only [fitsUnderLimit, limitRemaining, hL, Option.map_some, decide_eq_true_eq] at hfit
+          have hp0 : 0 < d.nswf := hfc.nswf_pos
+          omega
 
 end Bump
 
